@@ -273,3 +273,50 @@ pub fn render_finalize(response: &response::FinalizeBlock) -> String {
 pub fn is_fee_recipient_overflow(error: &str) -> bool {
     error.contains("failed to increase fee recipient balance") && error.contains("overflow")
 }
+
+/// The shape of C06's recorded finding (`process_proposal` constructs every transaction against
+/// the block-start state, `prepare_proposal` executes them one after the other): the rejection
+/// comes from `construct_checked_txs`, AND the block holds at least two user transactions of which
+/// one that is not the last carries an action that can change what a later construction check
+/// reads (authority, fee schedule, fee assets, currency pairs, relayer set, bridge administration,
+/// validator set). A construction failure in any other block is not that finding.
+pub fn is_block_start_construction_shape(error: &str, block_items: &[bytes::Bytes], injected: usize) -> bool {
+    use astria_core::{
+        generated::astria::protocol::transaction::v1 as rawtx,
+        protocol::transaction::v1::{
+            Action,
+            Transaction,
+        },
+        Protobuf as _,
+    };
+    use prost::Message as _;
+    if !error.contains("failed to construct checked transaction") {
+        return false;
+    }
+    let txs: Vec<Transaction> = block_items
+        .iter()
+        .skip(injected)
+        .filter_map(|bytes| rawtx::Transaction::decode(bytes.clone()).ok())
+        .filter_map(|raw| Transaction::try_from_raw(raw).ok())
+        .collect();
+    if txs.len() < 2 {
+        return false;
+    }
+    txs[..txs.len() - 1].iter().any(|tx| {
+        tx.actions().iter().any(|action| {
+            matches!(
+                action,
+                Action::SudoAddressChange(_)
+                    | Action::IbcSudoChange(_)
+                    | Action::IbcRelayerChange(_)
+                    | Action::FeeChange(_)
+                    | Action::FeeAssetChange(_)
+                    | Action::CurrencyPairsChange(_)
+                    | Action::MarketsChange(_)
+                    | Action::InitBridgeAccount(_)
+                    | Action::BridgeSudoChange(_)
+                    | Action::ValidatorUpdate(_)
+            )
+        })
+    })
+}
